@@ -37,6 +37,9 @@ UNITS = standard_units("C09") + [
     Unit("C09", "jsonargparse._actions:_ActionPrintConfig.print_config_if_requested", print_setup, pr_post, pr_raises, label="pending-request", expect_cover=("return", "raise:SystemExit"),
          replayer="replayers.c09:replay_pending_print_config"),
 ]
+from contracts.check_type import check_type_unit  # noqa: E402
+UNITS.append(check_type_unit("C09"))
+
 VERIFIED_CALLEES = ()
 LEVEL = "other"
 TECHNIQUE = "contract-based deductive verification of per-operation frame conditions (context variables restored on every exit; pending print_config request), VCs from the real AST + bounded comparison of operation histories with fresh parsers"
